@@ -1,0 +1,8 @@
+//! Hooks of the replication property group (C08, C09, C11, C19).
+use crate::credential::Credential;
+use crate::prelude::*;
+
+/// The identifier sessions use to refer to the credential that issued them.
+pub fn credential_uuid(c: &Credential) -> Uuid {
+    c.uuid
+}
